@@ -3156,6 +3156,35 @@ def fold_local_flags(body, facts):
                     cands[v["id"]] = v
     if not cands:
         return 0
+    # `return flag ? a : b;` is `if (flag) return a; else return b;` - the statement form is what jump threading works on
+    for b in walk(body):
+        if b.get("k") != "Block":
+            continue
+        for i_, st in enumerate(b.get("s", [])):
+            if not (isinstance(st, dict) and st.get("k") == "Return" and st.get("e") is not None):
+                continue
+            chain = []
+            e = st["e"]
+            while isinstance(e, dict) and e.get("k") in ("Cast", "Paren") and isinstance(e.get("e"), dict):
+                chain.append(e)
+                e = e["e"]
+            if not (isinstance(e, dict) and e.get("k") == "Cond"):
+                continue
+            c = ir.unwrap_all_casts(e.get("c"))
+            while isinstance(c, dict) and c.get("k") == "Un" and c.get("op") == "!":
+                c = ir.unwrap_all_casts(c.get("e"))
+            if not (isinstance(c, dict) and c.get("k") == "Ref" and c.get("d") == "local" and c.get("id") in cands):
+                continue
+
+            def arm(x):
+                out = x
+                for w in reversed(chain):
+                    w2 = dict(w)
+                    w2["e"] = out
+                    w2.pop("cv", None)
+                    out = w2
+                return {"k": "Block", "l": st.get("l"), "s": [{"k": "Return", "l": st.get("l"), "e": out}]}
+            b["s"][i_] = {"k": "If", "l": st.get("l"), "cond": e["c"], "then": arm(e.get("a")), "else": arm(e.get("b"))}
     # every mention must be a plain read in a boolean context or the target of a statement-level `=`
     stmt_stores = {}
     bad = set()
@@ -3878,12 +3907,126 @@ def project_aggregates(body, facts):
     return count[0]
 
 
+def _rr_match(p, t, st):
+    """structural match of pattern node p (from the wrapper) against t; st: {'params': {idx: expr}, 'locals': {pid: tid}}"""
+    if isinstance(p, list):
+        return isinstance(t, list) and len(p) == len(t) and all(_rr_match(a, b, st) for a, b in zip(p, t))
+    if not isinstance(p, dict):
+        return p == t
+    if p.get("k") == "Ref" and p.get("d") == "param":
+        if not isinstance(t, dict):
+            return False
+        # the argument: something that names an object and computes nothing
+        for x in walk(t):
+            if x.get("k") not in ("Ref", "Member", "This", "Cast", "Paren"):
+                return False
+        idx = p.get("idx")
+        if idx in st["params"]:
+            return ir.show(st["params"][idx]) == ir.show(t)
+        st["params"][idx] = t
+        return True
+    if not isinstance(t, dict) or p.get("k") != t.get("k"):
+        return False
+    if p.get("k") == "Ref" and p.get("d") == "local":
+        if t.get("d") != "local":
+            return False
+        if p.get("id") in st["locals"]:
+            return st["locals"][p["id"]] == t.get("id")
+        return False                    # a local of the wrapper that was not declared in the window
+    if p.get("k") == "Decl":
+        pv, tv = p.get("vars", []), t.get("vars", [])
+        if len(pv) != 1 or len(tv) != 1 or pv[0].get("t") != tv[0].get("t") or (pv[0].get("init") is None) != (tv[0].get("init") is None):
+            return False
+        if pv[0].get("init") is not None and not _rr_match(pv[0]["init"], tv[0]["init"], st):
+            return False
+        st["locals"][pv[0]["id"]] = tv[0]["id"]
+        return True
+    for k_ in set(p) | set(t):
+        if k_ in ("l", "tw"):
+            continue
+        if k_ not in p or k_ not in t:
+            return False
+        if not _rr_match(p[k_], t[k_], st):
+            return False
+    return True
+
+
+def reroll_wrappers(facts):
+    """N0 (the inverse of N1): a public member function W whose body is `T r = <expr calling a non-public worker>; return e(r);`
+    - declarations and one return, no control flow - defines what a call W(args) computes.  Where another member function of the
+    same class spells that very computation out (the same declarations with objects in place of W's reference parameters,
+    followed by a statement that consumes e(r), the locals used nowhere else), the spelled-out window *is* a call of W and is
+    rewritten into one.  This keeps `write_block()` = `write_block(m_block)` + clear + re-arm when the serialising part of
+    write_block(block) is moved into a private worker that both functions call."""
+    n = 0
+    by_cls = {}
+    for f in facts.functions.values():
+        if f.get("cls") and f.get("body_raw") is not None and f.get("inrepo", True) and not f.get("flattened"):
+            by_cls.setdefault(f["cls"], []).append(f)
+    for cls, fs in by_cls.items():
+        for a in fs:
+            if a.get("access", 0) != 0 or a.get("ctor") or a.get("dtor") or a.get("static") or a.get("virtual"):
+                continue
+            sts = [x for x in ir.stmts(a["body_raw"]) if x.get("k") != "Null"]
+            if not (2 <= len(sts) <= 4) or sts[-1].get("k") != "Return" or sts[-1].get("e") is None or any(x.get("k") != "Decl" for x in sts[:-1]):
+                continue
+            if any(x.get("k") in ("Lambda", "Throw", "New") for s_ in sts for x in walk(s_)):
+                continue
+            workers = [c for s_ in sts for c in ir.calls_in(s_) if (c.get("callee") or {}).get("cls") == cls and c["callee"].get("access") in (1, 2)]
+            if not workers:
+                continue
+            params = a.get("params", [])
+            if not params or any(not (pp.get("t") or "").rstrip().endswith("&") for pp in params):
+                continue
+            for b in fs:
+                if b is a or b["key"] == a["key"] or any(b["qn"] == (c.get("callee") or {}).get("qn") for c in workers):
+                    continue
+                for blk in [x for x in walk(b["body_raw"]) if x.get("k") == "Block"]:
+                    lst = blk.get("s", [])
+                    i = 0
+                    while i + len(sts) <= len(lst):
+                        st = {"params": {}, "locals": {}}
+                        win = lst[i:i + len(sts) - 1]
+                        if not all(_rr_match(ps, ts, st) for ps, ts in zip(sts[:-1], win)):
+                            i += 1
+                            continue
+                        user = unwrap(lst[i + len(sts) - 1])
+                        slot = None
+                        if isinstance(user, dict) and user.get("k") == "Decl" and len(user.get("vars", [])) == 1 and user["vars"][0].get("init") is not None:
+                            slot = (user["vars"][0], "init")
+                        elif isinstance(user, dict) and user.get("k") == "Return" and user.get("e") is not None:
+                            slot = (user, "e")
+                        elif isinstance(user, dict) and user.get("k") == "Bin" and user.get("op") == "=":
+                            slot = (user, "rhs")
+                        if slot is None or not _rr_match(sts[-1]["e"], slot[0][slot[1]], st) or set(st["params"]) != set(range(len(params))):
+                            i += 1
+                            continue
+                        # the window's locals live only in the window and in the consuming expression
+                        ids = set(st["locals"].values())
+                        inside = sum(1 for s_ in win + [slot[0][slot[1]]] for x in walk(s_) if x.get("k") == "Ref" and x.get("d") == "local" and x.get("id") in ids)
+                        total = sum(1 for x in walk(b["body_raw"]) if x.get("k") == "Ref" and x.get("d") == "local" and x.get("id") in ids)
+                        if inside != total:
+                            i += 1
+                            continue
+                        line = win[0].get("l")
+                        call = {"k": "MCall", "arrow": True, "l": line, "t": a.get("ret"),
+                                "recv": {"k": "This", "l": line, "t": cls + " *"},
+                                "callee": {"access": a.get("access", 0), "cls": cls, "inrepo": True, "qn": a["qn"], "ret": a.get("ret"), "sig": list(a.get("sig") or [])},
+                                "args": [copy.deepcopy(st["params"][j]) for j in range(len(params))]}
+                        slot[0][slot[1]] = call
+                        del lst[i:i + len(sts) - 1]
+                        n += 1
+                        i += 1
+    return n
+
+
 def normalise(facts, do_inline=True, do_propagate=True):
     inl = Inliner(facts)
     for f in facts.functions.values():
         if f.get("body") is not None and "body_raw" not in f:
             f["body_raw"] = f["body"]
-    stats = {"inlined_calls": 0, "propagated_uses": 0, "helpers_absorbed": []}
+    rerolled = reroll_wrappers(facts) if do_inline else 0
+    stats = {"inlined_calls": 0, "propagated_uses": 0, "helpers_absorbed": [], "rerolled": rerolled}
     if do_inline:
         for f in list(facts.functions.values()):
             if f.get("body_raw") is None:
@@ -3936,9 +4079,13 @@ def normalise(facts, do_inline=True, do_propagate=True):
                 if nb_:
                     stats["memos_removed"] += nb_
                     stats["decl_merged"] += merge_decl_with_first_store(f["body"])
-                nf_ = fold_local_flags(f["body"], facts)
-                stats["flags_folded"] = stats.get("flags_folded", 0) + nf_
-                if nf_:
+                for _round in range(3):
+                    # (a flag copied out of an inlined callee's result becomes a constant store only after the callee's own
+                    # flag was folded: the second round folds the copy)
+                    nf_ = fold_local_flags(f["body"], facts)
+                    stats["flags_folded"] = stats.get("flags_folded", 0) + nf_
+                    if not nf_:
+                        break
                     stats["stores_split"] = stats.get("stores_split", 0) + split_stores(f["body"], facts)
                     _tidy(f["body"])
                 stats["propagated_uses"] += propagate(f["body"], facts, memo)
